@@ -269,6 +269,22 @@ pub fn scenario(sseed: u64, _tier: Tier) -> Report {
     let (w, stats) = run(&cfg, rng.next());
     let log = w.take_log();
     let mut rep = judge(&cfg, &log);
+    // a caller that was refused readiness must be woken again: when the simulation ends because
+    // nobody is runnable any more (all inner calls are over, nothing is in flight), no caller may
+    // still be waiting for readiness
+    if !stats.hit_poll_cap {
+        let resolved: std::collections::HashSet<u64> = log.iter().filter_map(|r| match &r.ev {
+            Ev::Resolve { req, .. } | Ev::ActorPanic { req, .. } => Some(*req),
+            _ => None,
+        }).collect();
+        let stuck: Vec<u64> = stats.states.iter().filter(|(id, st)| *st == crate::sim::ActorState::Running && *id >= 1 && *id <= cfg.reqs.len() as u64 && !resolved.contains(id)).map(|(id, _)| *id).collect();
+        if !stuck.is_empty() {
+            rep.violate(
+                format!("C13:{}:refused-caller-never-woken", if cfg.alg.vegas { "vegas" } else { "aimd" }),
+                format!("callers {stuck:?} were refused readiness and are still waiting although nothing is in flight any more and nobody is runnable: poll_ready returned Pending without arranging a wake-up"),
+            );
+        }
+    }
     let mut sig = Fnv::default();
     sig.add(stats.trace_sig);
     for r in &log {
